@@ -278,6 +278,20 @@ func (e *Exec) run(ct *Contract, fi *FuncInfo, lit *ast.FuncLit) {
 			e.assert(r.st, name, "postcondition", phi, en.Text, fmt.Sprintf("%s:%d", shortFile(en.File), en.Line), mv)
 		}
 	}
+	if ct.Allocs && len(ct.AllocT) > 0 {
+		// the declared allocation kinds must cover what the body (and its callees) allocates
+		decl := map[string]bool{}
+		for _, k := range ct.AllocT {
+			decl[k] = true
+		}
+		for _, k := range keysOf(e.allocKinds) {
+			if !decl[k] {
+				e.errorf("contract of %s: allocates clause does not list kind %q", ct.Key, k)
+			}
+		}
+	} else if ct.HasMod && !ct.Allocs && len(e.allocKinds) > 0 {
+		e.errorf("contract of %s: the function allocates %v but has no allocates clause (callers would not see the new objects)", ct.Key, keysOf(e.allocKinds))
+	}
 	if ct.HasMod && e.mode == "seq" {
 		// (in concurrent mode protected state changes by interference at every acquire; the frame is a sequential notion)
 		e.checkFrame(ct, fi, fr, rets)
